@@ -14,7 +14,7 @@ from vlib.mc import enum as E
 PROPERTY = 'C14'
 LEVEL = 'exploration'
 ENGINE = 'C'
-TECHNIQUE = ('bounded-exhaustive enumeration of input-shape products against '
+TECHNIQUE = ('stateless bounded model checking: complete enumeration of input-shape products against '
              'reference classifiers')
 LEVEL_TEXT = ('All documented boolean words in three letter cases and five '
               'paddings plus near misses and non-strings, crossed with strict x '
